@@ -193,6 +193,8 @@ fn check(c: &Case, obs: &mut Obs) -> Verdict {
         }
     }
     obs.class_if(c.ops.len() >= 3, "history>=3");
+    obs.class_if(c.base.tokens.len() >= 256, ">=256-tokens");
+    obs.class_if(c.base.tokens.len() >= 1024, ">=1024-tokens");
     if nontrivial {
         obs.nontrivial();
     }
@@ -248,8 +250,71 @@ fn histories(t: Tier) -> BoxedStrategy<Case> {
         .boxed()
 }
 
+fn large(t: Tier) -> BoxedStrategy<Case> {
+    let p = MMParams { ranges: true, max_tokens: t.pick(1500, 6000), ..MMParams::regular(t) };
+    (
+        mm_strategy(p).prop_map(|mut m| {
+            // decoding very long maps through JSON is C01/C02's business: keep the cheap routes
+            if m.route == Route::Doc {
+                m.route = Route::Raw;
+            }
+            m
+        }),
+        vec((small_or_edge(), small_or_edge()), 0..6),
+    )
+        .prop_map(|(base, random_queries)| Case { base, ops: vec![], random_queries })
+        .boxed()
+}
+
+/// One long run of tokens at a single position (lengths around the powers of two and their
+/// multiples), with a few tokens before and after it.
+fn duplicate_runs(_t: Tier) -> BoxedStrategy<Case> {
+    let run = prop_oneof![
+        2 => 1usize..6,
+        3 => (4u32..9, 0usize..5).prop_map(|(k, d)| (1usize << k) - 2 + d),
+        2 => (1usize..5, 0usize..4).prop_map(|(m, d)| 33 * m - 1 + d),
+        1 => 20usize..140,
+    ];
+    (run, 0usize..4, 0usize..4, (0u32..3, 2u32..50), prop_oneof![Just(Route::Builder), Just(Route::Raw), Just(Route::Doc)])
+        .prop_map(|(run, before, after, (line, col), route)| {
+            let mut tokens = vec![];
+            let mk = |dl: u32, dc: u32, k: usize| MTok {
+                dl,
+                dc,
+                src: Some(crate::refimpl::v3::RefSrc { id: 0, line: k as u32, col: (k % 7) as u32, name: None }),
+                range: false,
+                junk: (0, 0),
+            };
+            for b in 0..before {
+                tokens.push(mk(line, (col - 1).saturating_sub(b as u32), 1000 + b));
+            }
+            for k in 0..run {
+                tokens.push(mk(line, col, k));
+            }
+            for a in 0..after {
+                tokens.push(mk(line + (a as u32 % 2), col + 1 + a as u32, 2000 + a));
+            }
+            let base = MM {
+                file: None,
+                root: None,
+                sources: vec!["a.js".into()],
+                contents: vec![],
+                names: vec![],
+                tokens,
+                ignore: vec![],
+                debug_id: None,
+                route,
+                json: JsonStyle::default(),
+            };
+            Case { base, ops: vec![], random_queries: vec![] }
+        })
+        .boxed()
+}
+
 fn subs() -> Vec<Sub> {
     vec![
+        gen_sub("duplicate_runs", duplicate_runs, |t| t.pick(3_000, 60_000), check),
+        gen_sub("large_maps", large, |t| t.pick(120, 2_000), check),
         gen_sub("lookups", plain, |t| t.pick(40_000, 600_000), check),
         gen_sub("histories", histories, |t| t.pick(10_000, 200_000), check),
     ]
@@ -257,7 +322,7 @@ fn subs() -> Vec<Sub> {
 
 pub const DEF: PropertyDef = PropertyDef {
     id: "C04",
-    rule: "lookups: model maps (all routes, tokens inserted in arbitrary order, positions squeezed onto tiny grids for many duplicates, \
+    rule: "duplicate_runs: one run of 1..140 tokens at a single position (lengths around powers of two and multiples of 33) with 0..3 tokens before and after. large_maps: maps with up to 1500 (6000) tokens. lookups: model maps (all routes, tokens inserted in arbitrary order, positions squeezed onto tiny grids for many duplicates, \
            empty and single-token maps) x queries derived from every token position (exact, +-1 column, column 0 / u32::MAX, neighbouring \
            lines, corners) plus random ones; oracle = linear scan over tokens(). histories: 1..6 producing operations (rewrite, \
            adjust_mappings, round trip, wrap+flatten, set_source_root, clone) with the ordering invariant and all lookups after every step. \
